@@ -92,3 +92,33 @@ Theorem C18_step_identifier : forall (uw ud : N -> bool) x c v r, ident_site c v
   step uw ud x = StepItem (ITok (ident_token x (c :: v)) (off x) (off x + S (List.length v))) (shift (S (List.length v)) x).
 Proof. exact step_identifier. Qed.
 Print Assumptions C18_step_identifier.
+
+(* ---- file level WITHOUT the prefix assumption (Proofs/LexPrefix.v).  The file is <prefix lexemes> <identifier> <anything>;
+   the prefix is a list of lexemes of the kinds blank / tab / newline, identifier or keyword, one-character operator, bracket,
+   decimal constant.  Named boundary conditions (decidable): lexs_ok - each prefix lexeme is followed by a character its
+   sub-parser does not join with; ident_site - the identifier lexeme is maximal and not followed by a quote.  Lookahead
+   locality is PROVED for these lexeme kinds (run_prefix); prefixes holding other lexemes (comments, literals, multi-character
+   operators, floats) are still covered only by the _partial theorem above plus the test on the real lexer. *)
+From NV Require Import Proofs.LexPrefix.
+
+Theorem C18_rename_file_obs : forall (uw ud : N -> bool) ls c v c' v' r items xf guard f,
+  lexs_ok ls ((c :: v) ++ r) = true -> lexs_ok ls ((c' :: v') ++ r) = true ->
+  ident_site c v r -> ident_site c' v' r -> List.length v' = List.length v ->
+  assoc (c :: v) keywords = None -> assoc (c' :: v') keywords = None ->
+  pair_ok guard (c :: v, c' :: v') = true -> rename_inv f = true -> no_other f = true ->
+  lex uw ud (raws ls ++ (c :: v) ++ r) = Ok (items, xf) ->
+  let x := lex_nexts pos0 ls in
+  exists later t t',
+    items = lex_items pos0 ls ++ ITok t (off x) (off x + S (List.length v)) :: later /\
+    lex uw ud (raws ls ++ (c' :: v') ++ r) = Ok (lex_items pos0 ls ++ ITok t' (off x) (off x + S (List.length v)) :: later, xf) /\
+    t_type t' = t_type t /\ t_line t' = t_line t /\ t_col t' = t_col t /\
+    t_val t = Some (c :: v) /\ t_val t' = Some (c' :: v') /\
+    forall o1 o2, eval_obs guard o1 f (c' :: v') = eval_obs guard o2 f (c :: v).
+Proof. exact rename_file_obs. Qed.
+Print Assumptions C18_rename_file_obs.
+
+(* lookahead locality on such a prefix: items and final position depend on the lexemes only, whatever text X follows *)
+Theorem C18_run_prefix : forall (uw ud : N -> bool) ls p acc X, lexs_ok ls X = true ->
+  run uw ud (List.length ls) (with_rest p (raws ls ++ X)) acc (with_rest (lex_nexts p ls) X) (rev (lex_items p ls) ++ acc).
+Proof. exact run_prefix. Qed.
+Print Assumptions C18_run_prefix.
